@@ -232,7 +232,10 @@ class Runner:
             for p, gr in zip(self.params[gi], grads[gi]):
                 if draw.get("toggle_rg"):
                     p.requires_grad_(gr is not None)
-                p.grad = None if gr is None else gr.clone()
+                if gr is not None and p.grad is not None and draw.get("grad_assign") == "data_swap" and p.grad.shape == gr.shape:
+                    p.grad.data = gr.clone()          # same .grad object, new storage
+                else:
+                    p.grad = None if gr is None else gr.clone()
         self._tensors = [realopt.block_state_tensors(opt, gi) for gi in range(self.ng)]
         self._prev_param = [{b: (t_.to_local() if hasattr(t_, "to_local") else t_).detach().to(F64).clone()
                              for (b, name), t_ in self._tensors[gi].items() if name == "param"} for gi in range(self.ng)]
@@ -306,7 +309,7 @@ class Runner:
                 if changed_ and (b, k) not in ok_calls:
                     mism.append((f"g{gi+1}.root_changed_without_successful_computation.b{b}.k{k}", "stored matrix kept", "changed"))
                 if (b, k) in ok_calls and not changed_ and g["kind"] == "shampoo" and draw.get("grad_mode", "dense") == "dense" \
-                        and not draw.get("grad_scales") and raised == "none":
+                        and not draw.get("grad_scales") and not draw.get("zero_steps") and raised == "none":
                     mism.append((f"g{gi+1}.computed_root_not_stored.b{b}.k{k}", "stored matrix updated", "bitwise unchanged"))
             ob = {"has": True, "reached": True, "step": sv, "stepped": sv != steps_before[gi],
                   "raised": raised if gi == raising_group else "none",
@@ -330,7 +333,7 @@ class Runner:
                 if b in act and ob["raised"] != "none" and name in ("param", "mom", "filt") and changed:
                     mism.append((f"g{gi+1}.changed_on_raise.b{b}.{name}", "unchanged", "changed"))
                 if b in act and ob["raised"] == "none" and ob["stepped"] and not changed and not self.poisoned \
-                        and draw.get("grad_mode", "dense") == "dense" and not draw.get("grad_scales") \
+                        and draw.get("grad_mode", "dense") == "dense" and not draw.get("grad_scales") and not draw.get("zero_steps") \
                         and draw["dtype"] == "float64" and draw.get("pdtype", "float64") == "float64":
                     # (a gradient far below the accumulated history - or below the resolution of a low-precision buffer - legitimately
                     # leaves a buffer bitwise unchanged)
